@@ -5,6 +5,7 @@ from sighash_common import *
 from taproot_common import *
 
 PID = "C07"
+TIES = ['tagged_hash']   # source-tie files coq/Properties/Tie_<f>.v that belong to this property
 THEOREMS = ["C07_tweak_agrees", "C07_tweak_model", "C07_keypath_verifies", "C07_scriptpath_verifies"]
 TECHNIQUE = "Coq proof (private/public tweak identity for both parities, BIP340 sign-then-verify and signature framing over the abstract curve) + extracted-model correspondence (byte-identical signatures) and libsecp256k1 verification under the committed output key"
 RULE = ("secrets across [1, n-1] incl. 1 and n-1 with all four (internal-key parity, output-key parity) combinations forced to occur, script trees of "
@@ -185,3 +186,8 @@ def post(d, out):
     if d["k"] in ("key", "script"):
         return out + "|" + ok + ",det=1"
     return "|".join(x + "," + ok for x in out.split("|"))
+
+
+# source tie (DESIGN 13.8)
+from common import with_ties
+LEVEL_TEXT, LEVEL_NOTE, TECHNIQUE = with_ties(TIES, LEVEL_TEXT, LEVEL_NOTE, TECHNIQUE)
